@@ -10,15 +10,27 @@ HOOKS = {
     "enable": "cargo kani sets --cfg kani itself; the native replayer is built with RUSTFLAGS='--cfg verif_hooks'",
     "baseline_off_cmd": "cd /repo && cargo test --workspace --no-fail-fast --offline",
     "source_commits": ["6a5f543"],
+    "fix_commits": ["8964a4c", "7774dd1", "c5a8780", "96afd96", "68fff19"],
     "add_only": True,
 }
 
-PER_PROPERTY = {}
+PARTIAL = ("Partial claim: only the clauses listed in DESIGN.md section 3 for this property are decided; the undecided clauses are listed under "
+           "coverage.outside_the_bound in the evidence file. ")
+PER_PROPERTY = {
+    "C03": {"text": PARTIAL + DEFAULT_TEXT},
+    "C04": {"text": PARTIAL + DEFAULT_TEXT, "technique": "obligations generated from the #[serde] attributes of the current source (bin/serde_scan.py), each skip-predicate/default pair decided for all values by a Kani/CBMC harness"},
+    "C12": {"text": PARTIAL + DEFAULT_TEXT},
+    "C13": {"text": PARTIAL + DEFAULT_TEXT},
+    "C17": {"text": PARTIAL + DEFAULT_TEXT},
+    "C19": {"text": PARTIAL + DEFAULT_TEXT},
+    "C20": {"text": PARTIAL + DEFAULT_TEXT},
+}
 
 NOT_APPLICABLE = [
     {"property_id": "C01", "reason": "process-level statement (exit status, stdout bytes, files) through globbing, Latin-1/gzip decoding, XML and env_logger: no symbolic input can be pushed through it; a Kani run on one concrete directory would be a concrete run, not a solver verdict"},
     {"property_id": "C02", "reason": "referential closure of converted models lives in string-keyed maps of parsed names and md5-of-Debug ids; format!+md5+string maps cannot be executed symbolically and modelling them away leaves none of the mechanism"},
     {"property_id": "C05", "reason": "byte-identical output across processes and 16 threads and md5-derived ids: Kani has no concurrency or processes, and the id function is md5 of Debug text"},
+    {"property_id": "C16", "reason": "purge_unused: symbolic execution does not finish (monolithic harness 15 min, five per-collection-group harnesses 20 min each): ten sub-purges of flat_map/flatten/cloned/filter/collect chains over vectors whose lengths become symbolic, Uuid memcmp in every HashSet operation; a bound small enough to finish would drop the chain/ordering clauses the statement is about"},
     {"property_id": "C18", "reason": "line/quote slicing parsers over String (replace, lines, split, trim, parse::<f32>): measured, 5 symbolic bytes through extract_u32vec do not finish in 10 minutes; no reachable bound says anything about documents"},
 ]
 
